@@ -23,3 +23,24 @@ package handshakecrypto
 //@ func ValueKeyMessage
 //@ noinline
 //@ end
+
+// The check behind VerifyKeySignature / VerifyCertificateVerify. The primitives (ecdsa.Verify, ed25519.Verify,
+// rsa.Verify*) are assumed unforgeable *for a non-trivial digest*; what is decided here is that each is only asked
+// under the announced scheme of its own key type and never over an empty digest, and that success needs its verdict.
+// (Before fix 113d509 an ECDSA key was verified under the announced scheme ed25519 over an empty digest: forgeable.)
+//@ func verifyCertificateSignature
+//@ watch ecdsa.Verify ed25519.Verify rsa.VerifyPKCS1v15 rsa.VerifyPSS x509.ParseCertificate
+//@ ensures no-certificate-rejected: len(rawCertificates) == 0 ==> result != nil
+//@ ensures leaf-key-is-used: called("x509.ParseCertificate") ==> sameSlice(argBytes("x509.ParseCertificate", 0), rawCertificates[0])
+//@ ensures ecdsa-only-under-ecdsa-scheme: called("ecdsa.Verify") ==> signatureAlgorithm == signature.ECDSA
+//@ ensures ecdsa-digest-not-empty: called("ecdsa.Verify") ==> len(argBytes("ecdsa.Verify", 1)) > 0
+//@ ensures ed25519-only-under-ed25519-scheme: called("ed25519.Verify") ==> signatureAlgorithm == signature.Ed25519
+//@ ensures ed25519-over-the-message: called("ed25519.Verify") ==> sameSlice(argBytes("ed25519.Verify", 1), message) && sameSlice(argBytes("ed25519.Verify", 2), remoteKeySignature)
+//@ ensures rsa-only-under-rsa-scheme: called("rsa.VerifyPKCS1v15") ==> signatureAlgorithm == signature.RSA
+//@ ensures rsa-digest-not-empty: called("rsa.VerifyPKCS1v15") ==> len(argBytes("rsa.VerifyPKCS1v15", 2)) > 0
+//@ ensures pss-only-under-pss-scheme: called("rsa.VerifyPSS") ==> signatureAlgorithm.IsPSS()
+//@ ensures pss-digest-not-empty: called("rsa.VerifyPSS") ==> len(argBytes("rsa.VerifyPSS", 2)) > 0
+//@ ensures success-needs-a-verdict: result == nil ==> (called("ecdsa.Verify") && retBool("ecdsa.Verify", 0)) || (called("ed25519.Verify") && retBool("ed25519.Verify", 0))
+//@    || (called("rsa.VerifyPKCS1v15") && retErr("rsa.VerifyPKCS1v15", 0) == nil) || (called("rsa.VerifyPSS") && retErr("rsa.VerifyPSS", 0) == nil)
+//@ ensures one-primitive: ncalls("ecdsa.Verify") + ncalls("ed25519.Verify") + ncalls("rsa.VerifyPKCS1v15") + ncalls("rsa.VerifyPSS") <= 1
+//@ end
